@@ -367,6 +367,21 @@ impl World {
         mongodb::sim::take_events();
     }
 
+    /// The client disconnects: its request in flight is dropped wherever its handler is
+    /// suspended (a database call not yet released is never executed).
+    pub async fn drop_request(&mut self, client: usize) {
+        let mut i = 0;
+        while i < self.inflight.len() {
+            if self.inflight[i].client == client {
+                let f = self.inflight.remove(i);
+                f.handle.abort();
+            } else {
+                i += 1;
+            }
+        }
+        pump().await;
+    }
+
     pub fn running_set(&self) -> Vec<(String, String, String)> {
         let g = self.app_data.currently_running.lock().unwrap();
         let mut v: Vec<_> = g.iter().map(|r| (r.username.clone(), r.adf_name.clone(), format!("{:?}", r.task))).collect();
